@@ -3,8 +3,9 @@
    offset >= 4 of the remaining input; slices are batched into packets (4-byte header + slices) while
    they fit, a slice that does not fit a packet is fragmented (B/E bits).  The decoder reassembles
    fragments into slices (d.fragments) and slices into the frame (d.sliceBuffer) until the marker.
-   Faithful to the pinned tree, including: fragments accumulate without any size check (F5); empty
-   fragments / empty b=e=1 slices are appended without bound (F6). *)
+   Faithful to the tree, including: fragmentsSize is checked against maxFrameSize when a middle or
+   end fragment arrives (fix b3e0ab0 for finding F5); empty fragments / empty b=e=1 slices are still
+   appended without bound (F6). *)
 From GVL Require Import NList Wire Chunks Rtp.
 From GVG Require Import Consts.
 Open Scope N_scope.
@@ -180,6 +181,7 @@ Definition decode_slice (d : dstate) (p : packet) : dstate * sl :=
       else if e then
         if dfsize d =? 0 then (d, SlErr) else
         if negb (pseq p =? dfnext d) then (reset_frags d, SlErr) else
+        if cap <? dfsize d + nlen body then (reset_frags d, SlErr) else      (* fragmentsSize > maxFrameSize *)
         let frags := dfrags d ++ [body] in
         let size := dfsize d + nlen body in
         match join frags size with
@@ -189,6 +191,7 @@ Definition decode_slice (d : dstate) (p : packet) : dstate * sl :=
       else
         if dfsize d =? 0 then (d, SlErr) else
         if negb (pseq p =? dfnext d) then (reset_frags d, SlErr) else
+        if cap <? dfsize d + nlen body then (reset_frags d, SlErr) else      (* fragmentsSize > maxFrameSize *)
         (mkD (dfrags d ++ [body]) (dfsize d + nlen body) (seq_next (dfnext d)) (dslices d) (dssize d), SlMore)
   | _, _, _ => (d, SlPanic)
   end.
